@@ -84,7 +84,11 @@ fn gen_tpl(rng: &mut Rng, i: usize, earlier: &[Tpl]) -> Tpl {
     // inline templates are rendered themselves, so they only use literal values
     let lit = place == 2;
     let v = |rng: &mut Rng, name: &str, lit_val: &str| -> String {
-        if lit { lit_val.to_string() } else if rng.chance(1, 4) { format!("${{{name}}}") } else { format!("${name}") }
+        // numeric parameters are sometimes used through an expression: evaluating the copy then fails
+        // (instead of leaving a literal "$w") when the reuse element does not bind them
+        if lit { lit_val.to_string() }
+        else if name != "label" && name != "kind" && rng.chance(1, 4) { format!("{{{{${name}}}}}") }
+        else if rng.chance(1, 4) { format!("${{{name}}}") } else { format!("${name}") }
     };
     let mut params: Vec<&'static str> = vec![];
     let mut classes = vec![];
@@ -95,6 +99,13 @@ fn gen_tpl(rng: &mut Rng, i: usize, earlier: &[Tpl]) -> Tpl {
         if with_id { attrs.push(("id".into(), id.clone())); }
         let kind = rng.below(4);
         let name = match kind {
+            0 if !lit && rng.chance(1, 5) => {
+                // the width comes from an element the reuse element names: `ref="#anchor"`
+                attrs.push(("width".into(), "{{$ref~w}}".into()));
+                attrs.push(("height".into(), v(rng, "h", "4")));
+                params.push("ref"); params.push("h");
+                "rect"
+            }
             0 => {
                 if rng.chance(1, 2) { attrs.push(("wh".into(), format!("{} {}", v(rng, "w", "6"), v(rng, "h", "4")))); }
                 else { attrs.push(("width".into(), v(rng, "w", "6"))); attrs.push(("height".into(), v(rng, "h", "4"))); }
@@ -141,7 +152,7 @@ fn gen_tpl(rng: &mut Rng, i: usize, earlier: &[Tpl]) -> Tpl {
             let t = cands[rng.below(cands.len())];
             let mut attrs: Vec<(String, String)> = vec![("href".into(), format!("#{}", t.id))];
             for p in &t.params {
-                let val = match *p { "label" => "inner".to_string(), "kind" => "n".to_string(), _ => fstr_ref(2.0 + rng.below(6) as f64) };
+                let val = match *p { "label" => "inner".to_string(), "kind" => "n".to_string(), "ref" => "#anchor".to_string(), _ => fstr_ref(2.0 + rng.below(6) as f64) };
                 attrs.push((p.to_string(), val));
             }
             attrs.push(("x".into(), v(rng, "off", "2")));
@@ -179,9 +190,16 @@ fn gen_inst(rng: &mut Rng, tpls: &[Tpl], n: usize) -> Inst {
         let val = match *p {
             "label" => rng.pick(&["alpha", "b c", "x1"]).to_string(),
             "kind" => rng.pick(&["a", "b", "zz"]).to_string(),
+            "ref" => "#anchor".to_string(),
             _ => fstr_ref(2.0 * (1 + rng.below(8)) as f64),
         };
         binds.push((p.to_string(), val));
+    }
+    // now and then a binding is forgotten: the instantiation (and the hand-written form, which then
+    // still mentions the variable) must fail cleanly, leaving no scope behind
+    if binds.len() > 1 && rng.chance(1, 12) {
+        let k = rng.below(binds.len());
+        if binds[k].0 != "label" && binds[k].0 != "kind" { binds.remove(k); }
     }
     Inst {
         tpl: ti,
@@ -234,7 +252,7 @@ fn inline_x(tpls: &[Tpl], t: &Tpl, i: &Inst) -> X {
             if name == "reuse" {
                 let href = attrs.iter().find(|(a, _)| a == "href").map(|(_, v)| v.trim_start_matches('#').to_string()).unwrap_or_default();
                 if let Some(t2) = tpls.iter().find(|t| t.id == href) {
-                    let g = |n: &str| attrs.iter().find(|(a, _)| a == n).and_then(|(_, v)| v.parse::<f64>().ok());
+                    let g = |n: &str| attrs.iter().find(|(a, _)| a == n).and_then(|(_, v)| v.replace("{{", "").replace("}}", "").trim().parse::<f64>().ok());
                     let inner = Inst {
                         tpl: 0,
                         binds: attrs.iter().filter(|(a, _)| !["href", "x", "y"].contains(&a.as_str())).cloned().collect(),
@@ -253,7 +271,8 @@ fn inline_x(tpls: &[Tpl], t: &Tpl, i: &Inst) -> X {
         Body::Shape(x) => {
             let X::El { name, attrs, .. } = subst_x(x, &i.binds) else { unreachable!() };
             let mut attrs = attrs;
-            let val = |attrs: &Vec<(String, String)>, k: &str| -> f64 { attrs.iter().find(|(a, _)| a == k).and_then(|(_, v)| v.parse::<f64>().ok()).unwrap_or(0.0) };
+            let unbrace = |v: &str| -> String { v.replace("{{", "").replace("}}", "") };
+            let val = |attrs: &Vec<(String, String)>, k: &str| -> f64 { attrs.iter().find(|(a, _)| a == k).and_then(|(_, v)| unbrace(v).trim().parse::<f64>().ok()).unwrap_or(0.0) };
             if let Some(r) = &i.rel {
                 attrs.push(("xy".into(), r.clone()));
             } else if let Some((x, y)) = i.xy {
@@ -263,7 +282,7 @@ fn inline_x(tpls: &[Tpl], t: &Tpl, i: &Inst) -> X {
                     "ellipse" => { let (a, b) = (val(&attrs, "rx"), val(&attrs, "ry")); attrs.push(("cx".into(), fstr_ref(x + a))); attrs.push(("cy".into(), fstr_ref(y + b))); }
                     _ => {
                         let p2 = attrs.iter().find(|(a, _)| a == "xy2").map(|(_, v)| v.clone()).unwrap_or_default();
-                        let ws: Vec<f64> = p2.split_whitespace().filter_map(|v| v.parse().ok()).collect();
+                        let ws: Vec<f64> = unbrace(&p2).split_whitespace().filter_map(|v| v.parse().ok()).collect();
                         attrs.retain(|(a, _)| a != "xy1" && a != "xy2");
                         attrs.push(("xy1".into(), format!("{} {}", fstr_ref(x), fstr_ref(y))));
                         attrs.push(("xy2".into(), format!("{} {}", fstr_ref(x + ws.first().copied().unwrap_or(0.0)), fstr_ref(y + ws.get(1).copied().unwrap_or(0.0)))));
@@ -304,9 +323,17 @@ pub fn judge(p_xml: &str, u_xml: &str, hidden_ids: &[String]) -> Vec<(String, St
     let rp = run_impl(p_xml, lim);
     let ru = run_impl(u_xml, lim);
     let mut out = vec![];
+    if rp.status != "ok" && (rp.scope_height > 1 || rp.elem_stack != 0 || rp.depth != 0) {
+        out.push(("state-left-behind".into(), format!("the failed transform leaves {} variable scopes, {} elements and depth {} behind", rp.scope_height, rp.elem_stack, rp.depth)));
+        return out;
+    }
     if ru.status != "ok" && rp.status != "ok" { return out; }
     if ru.status != "ok" { out.push(("status".into(), format!("the document with reuse transforms while the hand-written one fails ({})", ru.status))); return out; }
     if rp.status != "ok" { out.push(("status".into(), format!("the document with reuse fails ({}) while the hand-written one transforms", rp.status))); return out; }
+    if rp.scope_height > 1 || rp.elem_stack != 0 || rp.depth != 0 {
+        out.push(("state-left-behind".into(), format!("after the transform {} variable scopes, {} elements and depth {} remain: an instance's bindings outlived it", rp.scope_height, rp.elem_stack, rp.depth)));
+        return out;
+    }
     let (cp, cu) = (canon(&rp.events), canon(&ru.events));
     if cp.len() != cu.len() {
         out.push(("count".into(), format!("{} elements with reuse, {} written out by hand", cp.len(), cu.len())));
@@ -435,6 +462,15 @@ pub fn run(rep: &mut Report, tier: &str, seed: u64) -> Result<(), String> {
             }
         }
         let hidden: Vec<String> = tpls.iter().filter(|t| t.place == 0).map(|t| t.id.clone()).collect();
+        if insts.iter().any(|i| i.binds.len() < tpls[i.tpl].params.len()) {
+            // a forgotten binding: only the correspondence (clean failure, nothing left behind) is judged
+            corr.tally("missing-binding");
+            let js = judge(&p_xml, &p_xml, &hidden);
+            for (sig, what) in js.into_iter().filter(|(s, _)| s == "state-left-behind") {
+                rep.violation(Violation { kind: "oracle", stream: orc.name.clone(), signature: format!("C18:{sig}"), what, replay: json!({"input": p_xml, "written_out": p_xml, "specs_ids": hidden}), confirmed_on_impl: true });
+            }
+            continue;
+        }
         orc.case(&p_xml, true, || json!({"document": p_xml, "written_out": u_xml}));
         let js = judge(&p_xml, &u_xml, &hidden);
         if js.iter().all(|(s, _)| s == "line-template-placement") { orc.exact += 1; }
